@@ -107,6 +107,48 @@ def byte_const(text, name):
     return out
 
 
+def dep_enum_discriminants(crate, enum_name):
+    """explicit discriminants of a fieldless #[repr(u8)] enum of a dependency, read from the cargo registry source of the
+    version pinned in /repo/Cargo.lock"""
+    import glob
+    lock = open(os.path.join(core.REPO, "Cargo.lock")).read()
+    m = re.search(r'name = "%s"\nversion = "([^"]+)"' % re.escape(crate), lock)
+    if not m:
+        raise core.InfraError("translator: %s not in Cargo.lock" % crate)
+    cands = glob.glob(os.path.expanduser("~/.cargo/registry/src/*/%s-%s/src/types.rs" % (crate, m.group(1))))
+    if not cands:
+        raise core.InfraError("translator: source of %s %s not found in the cargo registry" % (crate, m.group(1)))
+    text = open(cands[0]).read()
+    m = re.search(r"pub enum %s \{(.*?)\n\}" % enum_name, text, re.S)
+    if not m:
+        raise core.InfraError("translator: enum %s not found in %s" % (enum_name, crate))
+    out = {}
+    for name, val in re.findall(r"^\s*(\w+)\s*=\s*(\d+),", re.sub(r"//[^\n]*", "", m.group(1)), re.M):
+        out[name] = int(val)
+    if not out:
+        raise core.InfraError("translator: no discriminants in %s" % enum_name)
+    return out
+
+
+def match_table(text, fn_name, from_enum, from_disc, to_enum, to_variants):
+    """the `From::A => To::B,` arms (also `From::A | From::B => To::C`) of a conversion function as (from discriminant, to
+    discriminant) pairs; arms with any other right-hand side are left out"""
+    m = re.search(r"fn %s\(.*?\n\}" % fn_name, text, re.S)
+    if not m:
+        raise core.InfraError("translator: %s not found" % fn_name)
+    out = []
+    for lhs, var in re.findall(r"((?:%s::\w+\s*\|?\s*)+)=>\s*%s::(\w+)\s*," % (from_enum, to_enum), m.group(0)):
+        if var not in to_variants:
+            raise core.InfraError("translator: %s::%s is not a variant" % (to_enum, var))
+        for a in re.findall(r"%s::(\w+)" % from_enum, lhs):
+            if a not in from_disc:
+                raise core.InfraError("translator: %s::%s is not a variant of the dependency" % (from_enum, a))
+            out.append((from_disc[a], to_variants.index(var)))
+    if not out:
+        raise core.InfraError("translator: no arms in %s" % fn_name)
+    return sorted(out)
+
+
 def render_consts():
     wavemem = _read("wavemem.rs")
     signals = _read("signals.rs")
@@ -165,6 +207,33 @@ def render_consts():
     extra += "\n(* wellen/src/ghw/common.rs *)\nDefinition ghw_std_logic_lut : list N := %s.\n" % nl(lut)
     for n, b in marks:
         extra += "Definition ghw_%s_section : list N := %s.\n" % (n.lower(), nl(b))
+    # wellen/src/fst.rs: conversions of the dependency's enums
+    fst = _read("fst.rs")
+    d_scope = dep_enum_discriminants("fst-reader", "FstScopeType")
+    d_var = dep_enum_discriminants("fst-reader", "FstVarType")
+    d_dir = dep_enum_discriminants("fst-reader", "FstVarDirection")
+    d_vhdl = dep_enum_discriminants("fst-reader", "FstVhdlDataType")
+    var_variants = enum_variants(hier, "VarType")
+
+    def pairs_of(tab):
+        return "[" + "; ".join("(%d, %d)" % p for p in tab) + "]"
+    extra += "\n(* wellen/src/fst.rs convert_scope_tpe / convert_var_tpe / convert_var_direction / merge_vhdl_data_and_var_type:\n"
+    extra += "   discriminant of the fst-reader enum (version of Cargo.lock) -> discriminant of the wellen enum *)\n"
+    extra += "Definition fst_scope_tab : list (N * N) := %s.\n" % pairs_of(match_table(fst, "convert_scope_tpe", "FstScopeType", d_scope, "ScopeType", enum_variants(hier, "ScopeType")))
+    extra += "Definition fst_var_tab : list (N * N) := %s.\n" % pairs_of(match_table(fst, "convert_var_tpe", "FstVarType", d_var, "VarType", var_variants))
+    extra += "Definition fst_dir_tab : list (N * N) := %s.\n" % pairs_of(match_table(fst, "convert_var_direction", "FstVarDirection", d_dir, "VarDirection", enum_variants(hier, "VarDirection")))
+    extra += "Definition fst_vhdl_merge_tab : list (N * N) := %s.\n" % pairs_of(match_table(fst, "merge_vhdl_data_and_var_type", "FstVhdlDataType", d_vhdl, "VarType", var_variants))
+    m = re.search(r"let signal_tpe = match tpe \{(.*?)\};", fst, re.S)
+    if not m:
+        raise core.InfraError("translator: signal_tpe match of read_hierarchy not found")
+    arms = re.findall(r"((?:\|?\s*FstVarType::\w+\s*)+)=>\s*SignalEncoding::(\w+)", m.group(1))
+    by = {}
+    for lhs, enc in arms:
+        by.setdefault(enc, []).extend(d_var[a] for a in re.findall(r"FstVarType::(\w+)", lhs))
+    if set(by) != {"String", "Real"} or "_ => SignalEncoding::bit_vec_of_len(length)" not in m.group(1):
+        raise core.InfraError("translator: unexpected arms in the signal_tpe match of read_hierarchy")
+    extra += "(* read_hierarchy: variable types stored as strings / as reals; every other type is a bit vector of the declared length *)\n"
+    extra += "Definition fst_string_var_types : list N := %s.\nDefinition fst_real_var_types : list N := %s.\n" % (nl(sorted(by["String"])), nl(sorted(by["Real"])))
     return """(* GENERATED by /verif/vlib/translate.py from /repo's current source - do not edit.
    (this committed copy is the snapshot used when the translator degrades) *)
 From Coq Require Import List NArith.
